@@ -13,7 +13,6 @@ use crate::dsl::*;
 use crate::gen::{self, Src, SyncParams};
 use crate::interp::{self, IterRec};
 use crate::script::{self, RunResult, RunSpec, Script, Step};
-use std::collections::HashMap;
 
 fn gen_prog(s: &mut Src, allow_fail: bool) -> (&'static str, Program) {
     let sp = SyncParams { max_threads: 2, max_ops: 6, ..Default::default() };
@@ -37,7 +36,7 @@ fn gen_prog(s: &mut Src, allow_fail: bool) -> (&'static str, Program) {
 
 pub fn build(draws: &[u16], _tier: Tier) -> Case {
     let mut s = Src::new(draws);
-    let mode = ["seq", "seq", "middle", "parallel", "parallel"][s.pick(5)];
+    let mode = ["seq", "seq", "middle", "parallel", "parallel", "resume", "resume"][s.pick(7)];
     let (fam, p) = gen_prog(&mut s, false);
     let (_, q) = gen_prog(&mut s, true);
     let mut c = Case::new("C16", fam, p);
@@ -50,34 +49,7 @@ pub fn build(draws: &[u16], _tier: Tier) -> Case {
     c
 }
 
-/// Addresses differ between processes: replace them by first-occurrence indices per iteration.
-fn normalise(r: &RunResult) -> RunResult {
-    let mut out = r.clone();
-    for rec in out.records.iter_mut() {
-        let mut ids: HashMap<i64, i64> = HashMap::new();
-        for n in rec.notes.iter_mut() {
-            if n.0 == interp::NOTE_LAZY_ADDR {
-                let k = ids.len() as i64;
-                n.2 = *ids.entry(n.2).or_insert(k);
-            }
-        }
-        // loom destroys the thread-locals of a thread (and the lazy statics of an execution) in
-        // hash-map order: the relative order of these destructor notes is not part of the fingerprint
-        let mut i = 0;
-        while i < rec.notes.len() {
-            let mut j = i;
-            let kind = rec.notes[i].0;
-            while (kind == interp::NOTE_TLS_DROP || kind == interp::NOTE_LAZY_DROP) && j < rec.notes.len() && rec.notes[j].0 == kind {
-                j += 1;
-            }
-            if j > i + 1 {
-                rec.notes[i..j].sort();
-            }
-            i = j.max(i + 1);
-        }
-    }
-    out
-}
+use crate::script::normalise;
 
 fn invariants(p: &Program, r: &RunResult) -> Option<String> {
     for (i, rec) in r.records.iter().enumerate() {
@@ -98,10 +70,10 @@ fn invariants(p: &Program, r: &RunResult) -> Option<String> {
             }
         }
         // lazy statics: at most one init per key per iteration, and an init whenever the key is touched
-        for key in 0..2i64 {
+        for key in 0..3i64 {
             let inits = rec.notes.iter().filter(|n| n.0 == interp::NOTE_LAZY_INIT && n.1 == key).count();
             let touched = rec.log.iter().any(|(t, j)| matches!(p.threads[*t as usize][*j as usize], Op::LazyGet { k } | Op::LazyCellRead { k } if k as i64 == key));
-            if inits > 1 {
+            if inits > 1 && key != 2 {
                 return Some(format!("iteration {}: lazy static {} initialised {} times", i + 1, key, inits));
             }
             if touched && inits == 0 {
@@ -136,6 +108,21 @@ pub fn eval(case: &Case) -> Verdict {
         None => return Verdict::skip("no second program"),
     };
     let mode = case.x.mode.clone().unwrap_or_else(|| "seq".into());
+    if mode == "resume" {
+        // state leaking from one iteration into the next inside one run: iteration j executed as
+        // the first iteration of a fresh process (resumed from a checkpoint) must be identical to
+        // iteration j of the uninterrupted run (the oracle of C13, applied to these programs)
+        let mut c = case.clone();
+        c.x.mode = Some("clean".into());
+        c.x.c = Some(1);
+        c.x.k = Some(case.x.n.unwrap_or(2) * 9000);
+        c.x.prog2 = None;
+        c.cfg.max_permutations = None;
+        let mut v = crate::props::c13::eval(&c);
+        v.labels.retain(|l| !l.starts_with("mode_"));
+        v.label("mode_resume");
+        return v;
+    }
     let spec_p = RunSpec { prog: p.clone(), cfg: case.cfg.clone(), ..Default::default() };
     let spec_q = RunSpec { prog: q.clone(), cfg: case.cfg.clone(), keep: Some(0), ..Default::default() };
     let fresh = |script: Script| -> Result<script::ScriptResult, Verdict> {
